@@ -5,6 +5,23 @@ HERE = os.path.dirname(os.path.dirname(os.path.abspath(__file__)))
 sys.path.insert(0, HERE)
 from sa.cli import run_property
 from sa.rules import ALL
+from sa import localnames
+from sa.core import Repo
+# (1) local-name signatures of every function (written first: the instance table below is computed with it in place)
+localnames._ref = {}
+repo = Repo("/repo")
+loc = {}
+for rel, m in repo.modules.items():
+    if "externals/cloudpickle" in rel:
+        continue
+    d = {q: localnames.keyed(fn) for q, fn in m.funcs.items()}
+    d = {q: v for q, v in d.items() if v}
+    if d:
+        loc[rel] = d
+os.makedirs(os.path.join(HERE, "reference"), exist_ok=True)
+json.dump(loc, open(os.path.join(HERE, "reference", "locals.json"), "w"), indent=0, sort_keys=True)
+localnames._ref = None
+print("locals.json: %d files, %d functions, %d locals" % (len(loc), sum(len(v) for v in loc.values()), sum(len(x) for v in loc.values() for x in v.values())))
 out = {}
 for pid in ALL:
     code, ctx = run_property(pid, "/repo", "quick", quiet=True, write_evidence=False)
